@@ -63,6 +63,14 @@ class FalsyInterfaceClass(InterfaceClass):
         return 0
 
 
+class RehashedInterfaceClass(InterfaceClass):
+    """A kind of interface with a hash of its own (derived from the inherited one, so equal interfaces of this kind still
+    hash equal): whatever table an interface is looked up in has to go by this hash."""
+
+    def __hash__(self):
+        return InterfaceClass.__hash__(self) ^ 0x5a5a5a
+
+
 class Node:
     __slots__ = ('kind', 'spec', 'name', 'cls', 'obj')
 
@@ -102,6 +110,9 @@ class Graph:
                 # of the hierarchy like any other
                 spec = FalsyInterfaceClass(name, tuple(bases) or (Interface,), {}, __module__=self.module)
                 self.ctx.count('falsy_interfaces')
+            elif rng.random() < 0.1:
+                spec = RehashedInterfaceClass(name, tuple(bases) or (Interface,), {}, __module__=self.module)
+                self.ctx.count('interfaces_with_a_hash_of_their_own')
             else:
                 spec = util.mkiface(name, bases, module=self.module)
         except IRO:
@@ -143,7 +154,9 @@ class Graph:
         if not cands or STRICT:
             return None
         orig = self.rng.choice(cands)
-        spec = InterfaceClass(orig.spec.__name__, (Interface,), {}, __module__=self.module)
+        # (of the same kind as the original: equal objects have to hash equal)
+        kind_ = RehashedInterfaceClass if isinstance(orig.spec, RehashedInterfaceClass) else InterfaceClass
+        spec = kind_(orig.spec.__name__, (Interface,), {}, __module__=self.module)
         n = Node('twin', spec, orig.name + '~')
         n.obj = orig
         self.nodes.append(n)
@@ -368,6 +381,36 @@ class Graph:
                 self.ctx.count('assignments_interrupted_by_a_raising_dependent')
                 self.check_own(n.spec, nb)
             self.ctx.op('rebase-again', n.name)
+        if not STRICT and rng.random() < 0.1:
+            # a dependent reacts to the news by assigning the bases of the same specification once more (to what they are
+            # going to be anyway): the assignment is made from inside the notification of an earlier, different one
+            other = tuple(b for b in nb[1:]) if len(nb) > 1 and n.kind in ('iface', 'decl') else None
+            if other is not None:
+                target, final = n.spec, nb
+
+                class Meddler:
+                    armed = True
+
+                    def changed(self_, originally_changed):
+                        if self_.armed:
+                            self_.armed = False
+                            target.__bases__ = final
+                med = Meddler()
+                n.spec.subscribe(med)
+                try:
+                    n.spec.__bases__ = other          # the dependent turns this into ``final`` before it returns
+                finally:
+                    n.spec.unsubscribe(med)
+                self.ctx.count('assignments_overtaken_by_a_nested_assignment')
+                # the nested (later) assignment is the one that counts, for everybody
+                self.check_own(n.spec, nb)
+                self.ctx.ev()
+                if [id(x) for x in n.spec.__iro__] != [id(x) for x in n.spec.__sro__ if isinstance(x, InterfaceClass)]:
+                    self.ctx.violation('iro-is-not-the-interface-part-of-sro', {'spec': self.name_of(n.spec), 'after': 'nested assignment',
+                                                                               'iro': [self.name_of(x) for x in n.spec.__iro__],
+                                                                               'sro': [self.name_of(x) for x in n.spec.__sro__]})
+                self.after_mutation(idx, before, how)
+                return True
         try:
             n.spec.__bases__ = nb
         except IRO as e:
